@@ -82,7 +82,19 @@ class Register:
             elif alias_from.size is not None and not isinstance(
                 alias_from.size, AnnotatedValue
             ):
+                if alias_slice.step == 0:
+                    raise JaqalError("Slice step cannot be zero.")
                 if alias_slice.stop > alias_from.size:
+                    raise JaqalError("Index out of range.")
+                indices = range(
+                    alias_slice.start or 0,
+                    alias_slice.stop,
+                    1 if alias_slice.step is None else alias_slice.step,
+                )
+                if len(indices) > 0 and not (
+                    0 <= indices[0] < alias_from.size
+                    and 0 <= indices[-1] < alias_from.size
+                ):
                     raise JaqalError("Index out of range.")
 
     def __hash__(self):
